@@ -8,7 +8,7 @@
 From Coq Require Import Reals List QArith.
 From Coquelicot Require Import Coquelicot.
 Import ListNotations.
-From PV Require Import Base.Num Model.LieGroup Model.LieExp Model.LieJac Proofs.LieGroup Proofs.LieExp Proofs.LieJac Proofs.LieJacQ.
+From PV Require Import Base.Num Model.LieGroup Model.LieExp Model.LieJac Proofs.LieGroup Proofs.LieExp Proofs.LieJac Proofs.LieJacQ Proofs.LieJacPair.
 Close Scope Q_scope.
 Local Open Scope R_scope.
 
@@ -62,6 +62,16 @@ Theorem C04_SE3_Mul_dX : forall (X Y : se3R) d i, unitq (snd X) ->
   is_derive (fun e => se3c i (SE3_mul (pertSE3 d X e) Y)) 0 (se3c i (tanSE3 d (SE3_mul X Y))).
 Proof. exact SE3_mul_dX. Qed.
 
+(* every modelled backward computes `cotangent @ M` (lvm) with M the list form of the matrix L above;
+   that is multiplication by the transpose:  <g @ M, d> = <g, M d>, for any sizes *)
+Theorem C04_backward_is_transpose : forall (g : list R) (M : lmat) (d : list R) n,
+  Forall (fun r => length r = n) M -> ldot (lvm g M n) d = ldot g (lmv M d).
+Proof. exact backward_is_transpose. Qed.
+Theorem C04_list_matrices_are_L :
+  (forall X d : list R, lmv (AdjM 0 X) d = v3_l (mvmul (SO3_Adj (l_q X)) (l_v3 d)) \/ length d <> 3%nat) /\
+  (forall p d : list R, lmv (act_jac 0 p) d = v3_l (mvmul (skew (vneg (l_v3 p))) (l_v3 d)) \/ length d <> 3%nat).
+Proof. split; [exact SO3_AdjM_is_Adj | exact act_jac_SO3_is_skew]. Qed.
+
 (* the AdjT backward of the source before repair 16e80b7 was wrong for SE3; the repaired one is exact
    for the gradient w.r.t. a (AdjT is linear in a) *)
 Theorem C04_SE3_AdjT_old_refuted : exists X a gz : list Q,
@@ -72,4 +82,4 @@ Proof. exact adjT_old_refuted_SE3. Qed.
 Print Assumptions C04_exp_near_zero_is_model. Print Assumptions C04_SO3_perturbation. Print Assumptions C04_SE3_perturbation.
 Print Assumptions C04_SO3_Mul_dX. Print Assumptions C04_SO3_Mul_dY. Print Assumptions C04_SO3_Inv.
 Print Assumptions C04_SO3_Act_dX. Print Assumptions C04_SO3_Act_dp. Print Assumptions C04_SO3_Adj_dX. Print Assumptions C04_SO3_Adj_da.
-Print Assumptions C04_SE3_Act_dX. Print Assumptions C04_SE3_Act_dp. Print Assumptions C04_SE3_Mul_dX. Print Assumptions C04_SE3_AdjT_old_refuted.
+Print Assumptions C04_SE3_Act_dX. Print Assumptions C04_SE3_Act_dp. Print Assumptions C04_SE3_Mul_dX. Print Assumptions C04_SE3_AdjT_old_refuted. Print Assumptions C04_backward_is_transpose. Print Assumptions C04_list_matrices_are_L.
